@@ -483,9 +483,10 @@ long long c_delineate_flowpathlengths_in_catchment(long long nrows,
             if(*idxcell_down == idxcell_outlet)
                 break;
 
-            /* Compute distance between up and down cell */
-            diff = abs(*idxcell_down - *idxcell_up);
-            squaredist = diff == 1 || diff == ncols ? 1 : 2;
+            /* Compute distance between up and down cell
+             * (diagonal if both row and column change) */
+            squaredist = (*idxcell_down % ncols != *idxcell_up % ncols
+                    && *idxcell_down / ncols != *idxcell_up / ncols) ? 2 : 1;
 
             /* Iterate */
             *idxcell_up = *idxcell_down;
@@ -498,8 +499,8 @@ long long c_delineate_flowpathlengths_in_catchment(long long nrows,
         if(ipath < nval && *idxcell_down >= 0)
         {
             /* Compute distance between up and down cell */
-            diff = abs(*idxcell_down - *idxcell_up);
-            squaredist = diff == 1 || diff == ncols ? 1 : 2;
+            squaredist = (*idxcell_down % ncols != *idxcell_up % ncols
+                    && *idxcell_down / ncols != *idxcell_up / ncols) ? 2 : 1;
             length += sqrt(squaredist);
         }
 
